@@ -17,7 +17,11 @@ Two kinds of cases (encodings in coq/Model/OpsC06.v):
       a DATA line answering the last challenge seen (kinds: right, wrongcookie, upper,
       onetoken, threetokens, spaces, wrongchallenge, zerohash, truncated, extended).  The reads are made from the actions while the
       conversation runs (split: 0 one line per read, 1 one byte per read, 2 two lines per
-      read, 3 everything in one read after the first challenge-free prefix).
+      read, 3 everything in one read after the first challenge-free prefix, 4 the NUL byte in a
+      read of its own, then one line per read).  creds = 1: the peer's credentials are available
+      the way the platform provides them - the code's _is_linux is set and the fake transport's
+      socket answers getsockopt(SOL_SOCKET, SO_PEERCRED); the code under test fetches them
+      itself; creds = 0: a platform without peer credentials.
 
   ['m', [cookie ids already in the file], [event ...]]
       several server connections of one bus sharing one keyring directory; every event is
@@ -57,7 +61,9 @@ ASSUMPTIONS = [
     'including a 16384-byte line cut between \\r and \\n and unfinished remainders of 16384..16387 bytes',
     'scripted mechanisms answer from the script whatever the response is (outcomes are universally quantified); a '
     'script entry CONTINUE with a non-empty str challenge (ill-typed: hexlify raises) is compared with the model only',
-    'concrete mechanisms: SO_PEERCRED is faked by setting protocol._unix_creds to (pid, uid, gid) of this process or None; '
+    'concrete mechanisms: peer credentials are those of this process (pid, uid, gid), served by a fake transport.socket '
+    'answering getsockopt(SOL_SOCKET, SO_PEERCRED) with protocol._is_linux set (the code under test fetches them itself, '
+    'under every splitting of the reads), or absent with _is_linux unset (nothing is asked); '
     'the uid resolves in the user database (getUserName at BEGIN); user names are looked up in the real user database; '
     'the keyring directory is redirected (the keyring_dir parameter _step_one has "for testing only"); cookie entries '
     'are younger than 30 s; the .lock file protocol and chown (run as root) are not modelled',
@@ -223,10 +229,32 @@ def in_domain(case_reads, script):
 
 # --------------------------------------------------------------------------
 # the implementation side
+class PeerSocket:
+    """what the bus can ask the kernel about the peer of a UNIX socket: SO_PEERCRED -> struct ucred"""
+
+    def __init__(self, peer):
+        self.peer = peer
+
+    def getsockopt(self, level, option, buflen=None):
+        import socket
+        import struct
+        if level == socket.SOL_SOCKET and option == 17 and self.peer is not None:
+            return struct.pack('3i', *self.peer)
+        raise OSError(92, 'Protocol not available')
+
+    def fileno(self):
+        return -1
+
+
 class Transport:
-    def __init__(self, rec):
+    def __init__(self, rec, peer=None):
         self.disconnecting = False
         self.rec = rec
+        if peer is not None:
+            self.socket = PeerSocket(peer)
+
+    def getHandle(self):
+        return self.socket
 
     def write(self, data):
         self.rec.wrote(data)
@@ -293,6 +321,7 @@ class Impl:
 
     def restore(self):
         self.auth.BusAuthenticator.authenticators = self.saved
+        self.protocol._is_linux = False
 
     # scripted mechanism classes (one per name, created once)
     def scripted(self, name):
@@ -325,13 +354,16 @@ class Impl:
             cls = self.scripted_cache[name] = Scripted
         return cls
 
-    def connect(self, creds=None):
+    def connect(self, peer=None):
+        """peer = (pid, uid, gid): a platform with peer credentials (the code's _is_linux), the transport's socket
+        answers SO_PEERCRED with them - the code under test fetches them itself, whenever it chooses to; None: a
+        platform without (the code never asks)"""
         self.rec = Recorder()
+        self.protocol._is_linux = peer is not None
         p = self.ServerProtocol()
         p.factory = self.Factory()
         p.rec = self.rec
-        p.makeConnection(Transport(self.rec))
-        p._unix_creds = creds
+        p.makeConnection(Transport(self.rec, peer))
         return p
 
     def deliver(self, p, data):
@@ -511,6 +543,9 @@ class ConcreteRun:
         p = im.connect((os.getpid(), os.geteuid(), os.getegid()) if creds else None)
         pending = b'\0'
         alive = True
+        lone_nul = split == 4        # the credentials byte in a read of its own (a sendmsg of its own in libdbus), then
+        if lone_nul:                 # one line per read
+            split = 0
 
         def send(data):
             nonlocal alive
@@ -520,6 +555,9 @@ class ConcreteRun:
             if alive:
                 alive = im.deliver(p, data)
 
+        if lone_nul:
+            send(pending)
+            pending = b''
         for k, act in enumerate(actions):
             if act[0] == 'L':
                 line = act[1]
@@ -855,7 +893,7 @@ def gen_concrete(ctx, count):
     good = [u for u in users if user_acceptable(u)]
     cookie_auth = [b'AUTH DBUS_COOKIE_SHA1 ' + u.hex().encode('ascii') for u in good]
     # the conforming clients of the "is accepted" clause (last field names them)
-    for split in (0, 1, 2, 3):
+    for split in (0, 1, 2, 3, 4):
         yield ['c', 1, 0, [], [['L', b'AUTH EXTERNAL'], ['L', b'DATA'], ['L', b'BEGIN']], split, 'EXTERNAL']
         yield ['c', 0, 0, [], [['L', b'AUTH ANONYMOUS'], ['L', b'BEGIN']], split, 'ANONYMOUS']
         yield ['c', 0, 0, [], [['L', b'AUTH ANONYMOUS ' + b'txdbus'.hex().encode()], ['L', b'BEGIN']], split, 'ANONYMOUS']
@@ -885,7 +923,7 @@ def gen_concrete(ctx, count):
             else:
                 acts.append(['L', rng.choice(lines)])
         yield ['c', rng.randrange(2), 1 if rng.random() < 0.08 else 0, rng.choice([[], [], [1], [4, 9], [1, 2]]),
-               acts, rng.randrange(0, 4), None]
+               acts, rng.randrange(0, 5), None]
 
 
 def gen_multi(max_exchanges, kinds, stores=([], [5])):
@@ -926,7 +964,8 @@ def run(ctx, res):
         'sequence of <= %d lines x constant scripts (rotation) - long enough to cross the rejection limit; random conversations '
         'of up to 40 lines with odd lines, mechanism lists, random cuts; first byte / 16 KiB limit / reads after close; the real '
         'EXTERNAL, DBUS_COOKIE_SHA1 (temporary keyring) and ANONYMOUS mechanisms with faked credentials, conforming clients and '
-        'random conversations; several connections sharing one keyring: every interleaving of start / finish / cancel / drop of '
+        'random conversations, peer credentials fetched by the code itself from a fake SO_PEERCRED socket under five splittings (one '
+        'with the NUL byte in a read of its own); several connections sharing one keyring: every interleaving of start / finish / cancel / drop of '
         'up to 3 overlapping DBUS_COOKIE_SHA1 exchanges with clients that look their cookie up by id.  Non-trivial: at least two observed events'
         % ([a.decode() for a in ALPHABET], 3 if q else 4, 4 if q else 5, [a.decode() for a in SMALL], 5 if q else 6))
     # command words outside the protocol for which THIS tree nevertheless has a handler (open getattr dispatch on
